@@ -148,7 +148,7 @@ def random_config(rng, custom):
     return dict(custom=custom, sizes=sizes, motifs=motifs)
 
 
-def execute(case):
+def _execute(case):
     """case: gen in fast|network|motifs, via in direct|main, cfg name, jds, rng: ('seed', s) | ('plan', [...])"""
     import gcmpy
     from gcmpy import GCMAlgorithmNames as GN
@@ -274,6 +274,8 @@ def execute(case):
 
 
 _HELD = {}      # the previous result object, kept alive: producing another graph must not change an earlier result
+from ..history import with_prior
+execute = with_prior(_execute, _HELD, lambda rec: rec["held_before"] != rec["held_after"])
 
 
 def _digest(res):
